@@ -19,6 +19,11 @@ import (
 	"time"
 
 	"github.com/ryogrid/SamehadaDB/lib/concurrency"
+	"github.com/ryogrid/SamehadaDB/lib/recovery"
+	"github.com/ryogrid/SamehadaDB/lib/storage/buffer"
+	"github.com/ryogrid/SamehadaDB/lib/storage/disk"
+	"github.com/ryogrid/SamehadaDB/lib/storage/page"
+	"github.com/ryogrid/SamehadaDB/lib/types"
 	"github.com/ryogrid/SamehadaDB/lib/verifshim/vsched"
 
 	"verif/core"
@@ -56,6 +61,100 @@ func c19Maintenance() *core.Scenario {
 			return h
 		},
 	}
+}
+
+// c19BPMScenarios: two goroutines on a buffer pool of one or two frames, so that every fetch / new page of
+// one thread victimises the frame the other thread has just unpinned, flushed or deallocated. (At SQL level
+// a 32-frame pool never evicts; these are the operations every statement performs underneath.)
+func c19BPMScenarios() []*core.Scenario {
+	type body func(bpm *buffer.BufferPoolManager, pids []types.PageID)
+	touch := func(pg *page.Page, b byte) {
+		pg.WLatch()
+		pg.Data()[100] = b
+		pg.WUnlatch()
+	}
+	fetchDirty := func(i int) body {
+		return func(bpm *buffer.BufferPoolManager, pids []types.PageID) {
+			if pg := bpm.FetchPage(pids[i]); pg != nil {
+				touch(pg, byte(i+1))
+				bpm.UnpinPage(pids[i], true)
+			}
+		}
+	}
+	fetchClean := func(i int) body {
+		return func(bpm *buffer.BufferPoolManager, pids []types.PageID) {
+			if pg := bpm.FetchPage(pids[i]); pg != nil {
+				bpm.UnpinPage(pids[i], false)
+			}
+		}
+	}
+	newPage := func(bpm *buffer.BufferPoolManager, pids []types.PageID) {
+		if pg := bpm.NewPage(); pg != nil {
+			touch(pg, 9)
+			bpm.UnpinPage(pg.GetPageID(), true)
+		}
+	}
+	flush := func(i int) body {
+		return func(bpm *buffer.BufferPoolManager, pids []types.PageID) { bpm.FlushPage(pids[i]) }
+	}
+	flushAll := func(bpm *buffer.BufferPoolManager, pids []types.PageID) { bpm.FlushAllDirtyPages() }
+	dealloc := func(i int) body {
+		return func(bpm *buffer.BufferPoolManager, pids []types.PageID) { bpm.DeallocatePage(pids[i], true) }
+	}
+	seq := func(bs ...body) body {
+		return func(bpm *buffer.BufferPoolManager, pids []types.PageID) {
+			for _, b := range bs {
+				b(bpm, pids)
+			}
+		}
+	}
+	type sc struct {
+		name   string
+		frames int
+		th     []body
+	}
+	list := []sc{
+		{"dirty-unpin(p0)||fetch(p1)", 1, []body{fetchDirty(0), fetchClean(1)}},
+		{"dirty-unpin(p0)||new-page", 1, []body{fetchDirty(0), newPage}},
+		{"dirty-unpin(p0);fetch(p1)||fetch(p2);dirty-unpin(p0)", 2, []body{seq(fetchDirty(0), fetchClean(1)), seq(fetchClean(2), fetchDirty(0))}},
+		{"dirty-unpin(p0)||flush(p0);fetch(p1)", 2, []body{fetchDirty(0), seq(flush(0), fetchClean(1))}},
+		{"dirty-unpin(p0)||flush-all;fetch(p1)", 1, []body{fetchDirty(0), seq(flushAll, fetchClean(1))}},
+		{"dirty-unpin(p0)||dealloc(p0);new-page", 2, []body{fetchDirty(0), seq(dealloc(0), newPage)}},
+		{"new-page||new-page", 2, []body{newPage, newPage}},
+		{"fetch(p0)||fetch(p0)", 1, []body{fetchDirty(0), fetchClean(0)}},
+	}
+	var out []*core.Scenario
+	for _, x := range list {
+		x := x
+		out = append(out, &core.Scenario{
+			Name: "c19/bpm/" + x.name, Bound: 1,
+			Setup: func() *core.Harness {
+				dm := disk.NewVirtualDiskManagerImpl("c19bpm.db")
+				if c17Log == nil {
+					ldm := disk.NewVirtualDiskManagerImpl("c17log.db")
+					c17Log = recovery.NewLogManager(&ldm)
+				}
+				bpm := buffer.NewBufferPoolManager(uint32(x.frames), dm, c17Log)
+				var pids []types.PageID
+				for i := 0; i < 3; i++ {
+					pg := bpm.NewPage()
+					pg.Data()[100] = byte(0x40 + i)
+					pids = append(pids, pg.GetPageID())
+					bpm.UnpinPage(pg.GetPageID(), true)
+				}
+				bpm.FlushAllPages()
+				h := &core.Harness{}
+				for i, b := range x.th {
+					b := b
+					h.Names = append(h.Names, fmt.Sprintf("user%d", i))
+					h.Threads = append(h.Threads, func() { guard(func() { b(bpm, pids) }) })
+				}
+				h.Check = func(*core.ExecInfo) (*core.Violation, string) { return nil, "" }
+				return h
+			},
+		})
+	}
+	return out
 }
 
 var raceSiteRe = regexp.MustCompile(`^\s+(\S+)\(.*\)$|^\s+(\S+)\(\)$`)
@@ -230,8 +329,12 @@ func c19Scenarios(thorough bool) []*core.Scenario {
 		scs = append(scs, s.build("C19"))
 	}
 	for _, s := range c12Scenarios(false) {
+		if strings.HasPrefix(s.Name, "flood/") || s.Bound > 0 {
+			continue // C12's own deadlock hunts (capacity abstraction, 102 clients, 2 preemptions) are not race scenarios
+		}
 		scs = append(scs, s.build(1))
 	}
+	scs = append(scs, c19BPMScenarios()...)
 	for _, s := range c17Scenarios(false) {
 		if strings.HasPrefix(s.Name, "skip:") || thorough {
 			scs = append(scs, s.build(1))
